@@ -219,6 +219,12 @@ async def _scenario(loop, sc, k, intervention, after=None):
         for g in [g for _, g in spy.gate_name.values()] + list(spy.gates.values()) + list(getattr(wd.net, "used_gates", [])):
             g.open()
         await loop.settle()
+        if state.get("what", {}).get("kind") in ("vanish", "vanish-control", "vanish-first") and any("speed_limit" in k for k in sc.server_kwargs):
+            # a server with speed limits may be asleep in its OWN throttle when the peer goes (it sees the reset at its
+            # next read or write): that sleep is finite and not "waiting for further input" - let it pass.  (Not after
+            # server.close(): closing leaves no task behind, asleep or not.)
+            await asyncio.sleep(30)
+            await loop.settle()
         if after is not None:
             await after(ctl, state, res)
             await loop.settle()
